@@ -3,6 +3,7 @@
 package sequtils
 
 import (
+	"github.com/biogo/biogo/feat"
 	"github.com/biogo/biogo/seq/linear"
 )
 
@@ -100,3 +101,31 @@ func verifLemmaJoinQLinear(dst, src *linear.QSeq, where int) error {
 //@   loop 1 invariant max == S(q, limit, end) - S(q, limit, start)
 //@   loop 1 invariant forall a int, b int :: startOf(q) <= a && a <= b && b <= i ==> S(q, limit, b) - S(q, limit, a) <= max
 //@   loop 1 decreases endOf(q) - i
+
+// ---- Stitch (C06): safety and frame -------------------------------------------------------
+// Stitch is verified inlined into a client that fixes the sequence type. Proved for all inputs: it never indexes
+// outside the source (every copied segment is src[fs:fe] with 0 <= fs < fe <= len), the result is linear at
+// offset 0 in fresh storage, and the source is untouched when dst != src. That the segments are exactly the
+// union of the feature intervals in ascending order is the bounded stand-in C06.stitch.
+//@ func Stitch
+//@   property C06
+//@   inline
+//@   loop 1 invariant 0 <= idx && idx <= len(ff) && forall k int :: 0 <= k && k < len(ff) ==> ff[k] != nil
+//@   loop 2 invariant 0 <= idx && idx <= len(ff) && (forall k int :: 0 <= k && k < len(ff) ==> ff[k] != nil) && (idx > 0 ==> csp != nil && fresh(ref(csp)) && allocated(ref(csp)))
+//@   loop 2 invariant fresh(fsp) && allocated(fsp) && forall k int :: 0 <= k && k < len(fsp) ==> fsp[k] != nil && fresh(ref(fsp[k])) && allocated(ref(fsp[k]))
+//@   loop 2 writes fresh
+//@   loop 3 invariant 0 <= idx && idx <= len(fsp) && l >= 0 && forall k int :: 0 <= k && k < len(fsp) ==> fsp[k] != nil
+//@   loop 4 invariant 0 <= idx && idx <= len(fsp) && (forall k int :: 0 <= k && k < len(fsp) ==> fsp[k] != nil) && typeis(t, alphabet.Letters) && fresh(t.(alphabet.Letters)) && allocated(t.(alphabet.Letters))
+//@   loop 4 invariant typeis(sl, alphabet.Letters) && pLen == len(sl.(alphabet.Letters)) && sl.(alphabet.Letters) == old(src.(*linear.Seq).Seq)
+//@   loop 4 writes fresh
+
+//@ func verifLemmaStitchLinear
+//@   property C06
+//@   lemma
+//@   requires src != nil && dst != nil && fs != nil
+//@   ensures [linear] result == nil ==> dst.Offset == 0 && dst.Conform == 0
+//@   ensures [independent] dst != src ==> src.Seq == old(src.Seq) && src.Offset == old(src.Offset) && forall k int :: 0 <= k && k < len(src.Seq) ==> src.Seq[k] == old(src.Seq[k])
+//@   ensures [fresh] result == nil ==> fresh(dst.Seq) || len(dst.Seq) == 0
+func verifLemmaStitchLinear(dst, src *linear.Seq, fs feat.Set) error {
+	return Stitch(dst, src, fs)
+}
